@@ -16,9 +16,15 @@ CHECKS = {
     "C06": dict(tech="TLC trace validation of traced-Merlin operation logs of both roles against the specification's operation schedule (order-preserving embedding), RoleSync invariant",
                 text="Every transcript operation of prover and verifier (label, payload identity, order, challenges, forks, RNG construction) recorded from the real code is matched by TLC against the schedule the specification derives for the statement and proof shape; returned transcripts must drive equal follow-up challenges.",
                 note="payload identity by value on toy curves; extra identical appends tolerated (C18 demands equality)", ref="5 C06"),
+    "C08": dict(tech="TLC enumeration of structurally arbitrary proofs (MC_Hostile: TotalVerifier, ShapeGuardExact) + replay of every grid point through from_bytes/verify under catch_unwind + TLC trace validation of the exact verdict on toy31723 + seeded byte mutations with an allocation meter",
+                text="Every (gates, |L|, |R|) grid point and every field forced to identity/zero is built by surgery on an honest proof and verified on all curves; a panic or a verdict other than the specification's is a violation; decoder memory is metered against a linear bound under inflated counts and random mutations.",
+                note="grid gates <= 9 (12), lengths <= 6 (9); catch_unwind instead of the crate's panic=abort; one genuine defect found by this check and repaired (known_findings.json)", ref="5 C08, 6"),
     "C10": dict(tech="TLC model checking of the inner-product argument (MC_IPP: exhaustive over F_7, sampled at P=31723 for k<=7) + TLC trace validation of create/verify on toy curves + replay of TLC-chosen instance patterns on the real curves",
                 text="Completeness, equivalence with explicit folding, rejection classes and the unrolled-first-round identity are model-checked; every create and verify run on toy curves through the guarded re-export is recomputed by TLC field by field (L, R, a, b, round count, verdict, transcript operations); the same instance patterns run on the 256-bit curves with ideal verdicts.",
                 note="k <= 5 quick / 7 thorough; toy exactness needs P^2 < 2^31; zero challenges on toy curves are degenerate events", ref="5 C10"),
+    "C11": dict(tech="TLC model checking of the decoder state machine (Codec/MC_Codec) + one generated test per (k, prefix length) and per (token, invalid class) run through the real from_bytes",
+                text="Size law, determinism, re-encode equality and equal verdict are checked per circuit shape; every strict prefix and every token position x invalid class (scalar >= modulus, off-curve, non-canonical, outside the prime-order subgroup) of honest encodings must yield FormatError; trailing bytes must decode to the identical proof.",
+                note="k <= 3 (4); per-curve token sizes; arkworks' unchecked decoder is the oracle for 'not a curve point'", ref="5 C11"),
     "C12": dict(tech="TLC enumeration of all capacity histories and views (MC_Gens: HistoryIndependent, ViewPartyMajor) + execution of every history and view on the real generator tables + pinned digests",
                 text="Every history of new/increase_capacity/serialise-deserialise/clone within the bounds and every (n, m) view is executed on the real tables and compared entry by entry with the abstract chain; distinctness, non-identity, prime order and bit-for-bit digests from the reference revision are checked on large tables.",
                 note="capacities <= 4 (6), parties <= 2 (3), <= 3 (4) operations; digests pinned in fixtures/gens_digests.json", ref="5 C12"),
